@@ -34,10 +34,11 @@ type zvRoundCtl struct {
 	aux         uint64
 }
 
-func (c *zvRoundCtl) apply(op string, t structs.MessageType, req any) error {
+func (c *zvRoundCtl) apply(op string, n int, t structs.MessageType, req any) error {
 	c.idx++
 	c.rd.Applied++
 	c.rd.Ops = append(c.rd.Ops, op)
+	c.rd.BatchLens = append(c.rd.BatchLens, n)
 	if op == "delete" {
 		c.rd.AppliedDel++
 	}
@@ -132,11 +133,11 @@ func (d *zvTokenDouble) FetchUpdated(_ *Server, updates []string) (int, error) {
 
 func (d *zvTokenDouble) DeleteLocalBatch(_ *Server, batch []string) error {
 	d.ctl.rd.Deletes = append(d.ctl.rd.Deletes, batch...)
-	return d.ctl.apply("delete", structs.ACLTokenDeleteRequestType, &structs.ACLTokenBatchDeleteRequest{TokenIDs: batch})
+	return d.ctl.apply("delete", len(batch), structs.ACLTokenDeleteRequestType, &structs.ACLTokenBatchDeleteRequest{TokenIDs: batch})
 }
 
 func (d *zvTokenDouble) UpdateLocalBatch(_ context.Context, _ *Server, start, end int) error {
-	return d.ctl.apply("upsert", structs.ACLTokenSetRequestType, &structs.ACLTokenBatchSetRequest{Tokens: d.updated[start:end], CAS: false, AllowMissingLinks: true, FromReplication: true})
+	return d.ctl.apply("upsert", end-start, structs.ACLTokenSetRequestType, &structs.ACLTokenBatchSetRequest{Tokens: d.updated[start:end], CAS: false, AllowMissingLinks: true, FromReplication: true})
 }
 
 func zvTokenRound(r *fsmkit.Replica, primary []*structs.ACLToken, last uint64, shuffle bool, aux uint64, localEmpty, remoteEmpty int, backwards bool) (rd zvRound) {
@@ -194,11 +195,11 @@ func (d *zvPolicyDouble) FetchUpdated(_ *Server, updates []string) (int, error) 
 
 func (d *zvPolicyDouble) DeleteLocalBatch(_ *Server, batch []string) error {
 	d.ctl.rd.Deletes = append(d.ctl.rd.Deletes, batch...)
-	return d.ctl.apply("delete", structs.ACLPolicyDeleteRequestType, &structs.ACLPolicyBatchDeleteRequest{PolicyIDs: batch})
+	return d.ctl.apply("delete", len(batch), structs.ACLPolicyDeleteRequestType, &structs.ACLPolicyBatchDeleteRequest{PolicyIDs: batch})
 }
 
 func (d *zvPolicyDouble) UpdateLocalBatch(_ context.Context, _ *Server, start, end int) error {
-	return d.ctl.apply("upsert", structs.ACLPolicySetRequestType, &structs.ACLPolicyBatchSetRequest{Policies: d.updated[start:end]})
+	return d.ctl.apply("upsert", end-start, structs.ACLPolicySetRequestType, &structs.ACLPolicyBatchSetRequest{Policies: d.updated[start:end]})
 }
 
 func zvPolicyRound(r *fsmkit.Replica, primary []*structs.ACLPolicy, last uint64, shuffle bool, aux uint64, backwards bool) (rd zvRound) {
@@ -245,11 +246,11 @@ func (d *zvRoleDouble) FetchUpdated(srv *Server, updates []string) (int, error) 
 
 func (d *zvRoleDouble) DeleteLocalBatch(_ *Server, batch []string) error {
 	d.ctl.rd.Deletes = append(d.ctl.rd.Deletes, batch...)
-	return d.ctl.apply("delete", structs.ACLRoleDeleteRequestType, &structs.ACLRoleBatchDeleteRequest{RoleIDs: batch})
+	return d.ctl.apply("delete", len(batch), structs.ACLRoleDeleteRequestType, &structs.ACLRoleBatchDeleteRequest{RoleIDs: batch})
 }
 
 func (d *zvRoleDouble) UpdateLocalBatch(_ context.Context, _ *Server, start, end int) error {
-	return d.ctl.apply("upsert", structs.ACLRoleSetRequestType, &structs.ACLRoleBatchSetRequest{Roles: d.updated[start:end], AllowMissingLinks: true})
+	return d.ctl.apply("upsert", end-start, structs.ACLRoleSetRequestType, &structs.ACLRoleBatchSetRequest{Roles: d.updated[start:end], AllowMissingLinks: true})
 }
 
 func zvRoleRound(r *fsmkit.Replica, primary structs.ACLRoles, last uint64, shuffle bool, aux uint64, backwards bool) (rd zvRound) {
